@@ -113,6 +113,15 @@ J gen_tunnel(uint64_t seed, const J &ov)
 	if (ov.has("raw")) for (auto &c : cl.a) c.set("raw", ov.getb("raw"));
 	if (ov.has("fragsize")) for (auto &c : cl.a) c.set("fragsize", (int)ov.geti("fragsize"));
 	if (mode == "redeliver") for (auto &c : cl.a) c.set("raw", false);
+	if (mode == "inject9") for (auto &c : cl.a) { c.set("raw", false); static const char *ty[] = {"NULL", "PRIVATE", "TXT", "TXT", "SRV", "SRV", "MX", "MX", "CNAME", "A"}; c.set("qtype", ty[r.range(0, 9)]); }
+	if (mode == "clean9") {
+		// half of the runs re-encode answers with the reference encoder; 40% have an answer size limit (so that the autoprobe's
+		// binary search goes down as well as up); neither changes what a correct decoder extracts
+		J rl = J::obj();
+		if (r.chance(0.5)) rl.set("ref_reencode", true);
+		if (r.chance(0.4)) { static const int sz[] = {512, 600, 768, 1000, 1232, 1500}; rl.set("maxans", sz[r.range(0, 5)]); rl.set("big", r.chance(0.4) ? "drop" : r.chance(0.5) ? "trim" : "servfail"); }
+		if (!rl.o.empty()) cfg.set("relay", rl);
+	}
 	if (mode == "clean9") for (auto &c : cl.a) {
 		// C09: every answer format, fragment sizes up to what one answer can carry (and autoprobe, whose probes sweep lengths)
 		static const char *ty[] = {"TXT", "TXT", "SRV", "MX", "CNAME", "A", "NULL", "PRIVATE"};
@@ -122,7 +131,8 @@ J gen_tunnel(uint64_t seed, const J &ov)
 		if (enc == "raw" && qt != "TXT" && qt != "NULL" && qt != "PRIVATE") enc = "base128";
 		c.set("downenc", r.chance(0.15) ? "" : enc);
 		int cap = fragsize_capacity(qt, c.gets("downenc"));
-		if (r.chance(0.35)) c.set("fragsize", 0);
+		if (cfg["relay"].geti("maxans")) c.set("fragsize", 0);       // a forced size above the path's limit would be the operator's mistake: autoprobe
+		else if (r.chance(0.35)) c.set("fragsize", 0);
 		else c.set("fragsize", (int)(r.chance(0.5) ? r.range(std::max(2, cap - 40), cap) : r.range(20, cap)));
 	}
 	if (mode == "names") for (auto &c : cl.a) {
@@ -141,7 +151,6 @@ J gen_tunnel(uint64_t seed, const J &ov)
 
 	uint64_t ser = seed % 1000 * 100000;
 	if (mode == "clean" || mode == "clean9") {
-		if (mode == "clean9" && r.chance(0.5)) { J rl = J::obj(); rl.set("ref_reencode", true); cfg.set("relay", rl); }
 		double W = 10 + r.uniform() * 25;
 		int maxlen = r.chance(0.8) ? 1200 : 4000;
 		gen_traffic(r, ops, "c0", r.chance(0.5) ? "srv" : "ext", (int)r.range(20, 45), 0.1, W, ser, maxlen, true);
@@ -178,6 +187,21 @@ J gen_tunnel(uint64_t seed, const J &ov)
 		cfg.set("faults", f);
 		cfg.set("dur_s", (int)(W + 40));
 		cfg.set("tmax_s", 700);
+	} else if (mode == "inject9") {
+		// C09 pairing (ii): the downstream data channel is driven by the reference encoder (sim/injector.cc); the real client's
+		// own upstream traffic continues so that both header bytes are in use
+		double W = 25 + r.uniform() * 20;
+		int n = (int)r.range(10, 40);
+		for (int i = 0; i < n; i++) {
+			J op = J::obj(); op.set("t", (long long)((0.2 + r.uniform() * W) * 1e6)); op.set("op", "inj"); op.set("ser", (long long)++ser);
+			op.set("len", (int)(r.chance(0.3) ? r.range(40, 200) : r.chance(0.5) ? r.range(200, 1400) : r.range(1400, 6000)));
+			static const char *bodies[] = {"rnd", "rnd", "text", "zero"};
+			op.set("body", bodies[r.range(0, 3)]); op.set("src", "ext"); op.set("dst", "c0");
+			ops.push(op);
+		}
+		gen_traffic(r, ops, "c0", "srv", (int)r.range(0, 15), 0.1, W, ser, 800, true);
+		cfg.set("dur_s", (int)(W + 40));
+		cfg.set("tmax_s", 600);
 	} else if (mode == "names") {
 		// C08: short sessions over (L, domain length, upstream codec); upstream packets of all sizes and tail residues
 		double W = 4 + r.uniform() * 6;
@@ -290,10 +314,11 @@ World *build_tunnel(const J &plan)
 	std::string mode = w->cfg.gets("mode", "faulty");
 	Relay *relay = nullptr;
 	if (w->cfg.has("relay")) relay = install_relay(w, w->cfg["relay"]);
-	w->add(mk_c01_integrity(w));
+	if (mode != "inject9") w->add(mk_c01_integrity(w));      // inject9: an on-path party forges the downstream stream by design
 	if (mode == "redeliver") { w->add(mk_c02_delivery(w, true, false, "C16")); w->add(mk_c16_redeliver(w)); }
 	else if (mode == "relayfam") w->add(mk_c02_delivery(w, true, false, "C11"));
-	else if (mode == "clean9") w->add(mk_c02_delivery(w, true, false, "C09"));
+	else if (mode == "inject9") w->add(install_injector(w));
+	else if (mode == "clean9") { w->add(mk_c02_delivery(w, true, false, "C09")); w->add(mk_c09_probe_judge(w)); }
 	else if (mode == "names") { w->add(mk_c02_delivery(w, true, false, "C02")); w->add(mk_c08_names(w)); }
 	else w->add(mk_c02_delivery(w, mode == "clean", mode == "recover"));
 	w->add(mk_c15_fragsize(w));
@@ -340,6 +365,7 @@ World *build_tunnel(const J &plan)
 		if (mode == "clean" || mode == "clean9") nt = nt && ww->probes["c02.acc_c"] >= 5 && ww->probes["c02.acc_s"] >= 5;
 		if (mode == "recover") nt = nt && fault;
 		if (mode == "redeliver") nt = nt && ww->probes["c16.redelivered"] >= 1;
+		if (mode == "inject9") nt = ww->all_in_tunnel && ww->probes["c09.inj_packets_acked"] >= 3;
 		if (mode == "names") nt = ww->all_in_tunnel && ww->probes["c08.full_chunks"] >= 1 && ww->probes["c08.tail_chunks"] >= 1;
 		if (mode == "relayfam") nt = ww->all_in_tunnel && ww->probes["c02.acc_c"] >= 3 && ww->probes["c02.acc_s"] >= 3;
 		r.set("nontriv", nt);
